@@ -334,6 +334,20 @@ func specialKeys(c *specialCtx) {
 			got := hexOrDash(im.vt.EncodeKey(ev))
 			want := d.ask(keyCmd(ts.flags, ts.mok, ts.app, ev))
 			c.count(fmt.Sprintf("%d/%d/%d/%d/%d", ts.flags, int(ev.Code), int(ev.Mod), int(ev.Event), int(ev.Rune)))
+			// recorded deviations of the encoder from keyboard-protocol.rst (known findings): the
+			// model transcribes the code, so they are detected here by their trigger
+			if got != "-" {
+				kp := int(ev.Code) >= 56 && int(ev.Code) <= 84
+				textKey := ev.Code == 0 && ev.Rune != 0
+				switch {
+				case ts.flags&8 != 0 && ts.flags&1 == 0 && kp:
+					c.violation("kitty-doc-keypad-report-all", "report-all-keys without disambiguate: keypad key sent as its plain equivalent", nil)
+				case ts.flags&8 == 0 && ts.flags&1 != 0 && textKey && int(ev.Mod)&0xc0 != 0 && int(ev.Mod)&0x3e != 0:
+					c.violation("kitty-doc-lock-mods", "lock modifiers reported for a text key without report-all-keys", nil)
+				case ts.flags&24 == 24 && textKey && len(ev.Text) == 0 && (int(ev.Mod)&5 != 0 || ev.Event == 3):
+					c.violation("kitty-doc-text-field", "associated text emitted with ctrl/shift (unshifted rune) or on release", nil)
+				}
+			}
 			if got != want {
 				c.violation("key-encoding", fmt.Sprintf("flags=%d mok=%d app=%v ev=%+v: wrote %s, model %s", ts.flags, ts.mok, ts.app, ev, got, want),
 					map[string]any{"flags": ts.flags, "mok": ts.mok, "app": ts.app, "code": int(ev.Code), "rune": int(ev.Rune), "mod": int(ev.Mod), "event": int(ev.Event)})
@@ -823,6 +837,7 @@ func runCaseTrace(cs *Case, d *driver) trace {
 	}
 	resizes := 0
 	var evs []string
+	shadowBad := false
 	record := func(tag string) {
 		o, _ := im.observe(true)
 		// notifications and replies accumulate (the buffers cut text into different steps)
@@ -831,6 +846,19 @@ func runCaseTrace(cs *Case, d *driver) trace {
 		}
 		o.E = "E " + strings.Join(evs, ",")
 		o.W = "W " + hexOrDash(im.be.written)
+		// equivalent change notifications: a frontend repainting what is announced is in sync
+		// on both buffers or on neither
+		var fs []finding
+		snap := im.vt.Snap()
+		im.checkAPI(&snap, 0, tag, &fs)
+		for _, f := range fs {
+			if f.Prop == "C10" && f.Clause == "shadow" {
+				shadowBad = true
+			}
+		}
+		if shadowBad {
+			o.V += " shadow-out-of-sync"
+		}
 		ls := o.lines()
 		tr.obs = append(tr.obs, strings.Join(ls[1:], "\n")) // without the consumed count
 		tr.at = append(tr.at, resizes*1000000+im.consumed())
